@@ -15,9 +15,10 @@ LEVEL = "model_checking"
 def run(ctx):
     fmt_common.run_prop(
         ctx, "c19",
-        ["Layout_c19_quick_trees.cfg", "Layout_c19_quick_stmts.cfg", "Layout_c19_quick_mut.cfg", "Layout_c19_quick_cm.cfg"],
+        ["Layout_c19_quick_trees.cfg", "Layout_c19_quick_stmts.cfg", "Layout_c19_quick_mut.cfg", "Layout_c19_quick_cm.cfg",
+         "Layout_c19_quick_imports.cfg"],
         ["Layout_c19_thorough_trees.cfg", "Layout_c19_thorough_arg.cfg", "Layout_c19_thorough_stmts.cfg",
-         "Layout_c19_thorough_mut.cfg", "Layout_c19_thorough_cm.cfg"])
+         "Layout_c19_thorough_mut.cfg", "Layout_c19_thorough_cm.cfg", "Layout_c19_quick_imports.cfg"])
     ctx.rule = ("every tree of the cfg's families (expression trees of each focus of Syntax.tla up to Sizes[f] nodes wrapped in a "
                 "statement; statement / declaration / class-file templates over the expression pool; samples) x every single AST "
                 "mutation x base layout x gap deviations x comment placements within the cfg's bounds; "
